@@ -45,6 +45,15 @@ pub fn dump_types<'tcx>(tcx: TyCtxt<'tcx>, krate: &str, out: &mut Vec<u8>) {
                     variants.push(format!("[{},{}]", s(&v.name.to_string()), arr(&fields)));
                 }
                 let repr = adt.repr();
+                let mut discrs: Vec<String> = Vec::new();
+                if adt.is_enum() {
+                    let r = std::panic::catch_unwind(std::panic::AssertUnwindSafe(|| {
+                        adt.discriminants(tcx).map(|(_, d)| format!("\"{}\"", d.val)).collect::<Vec<String>>()
+                    }));
+                    if let Ok(v) = r {
+                        discrs = v;
+                    }
+                }
                 let mut lay = "null".to_string();
                 if only_lifetime_generics(tcx, did) {
                     let t = tcx.type_of(did).instantiate_identity().skip_norm_wip();
@@ -67,6 +76,7 @@ pub fn dump_types<'tcx>(tcx: TyCtxt<'tcx>, krate: &str, out: &mut Vec<u8>) {
                     ("repr_transparent", b(repr.transparent())),
                     ("layout", lay),
                     ("variants", arr(&variants)),
+                    ("discrs", arr(&discrs)),
                 ]));
             }
             DefKind::Static { mutability, .. } => {
